@@ -337,6 +337,16 @@ class CCodegen(Stringifier):
         """
         return self.format_line('continue;')
 
+    def visit_ExitStmt(self, o, **kwargs):
+        """
+        Format as
+          break;
+        """
+        if o.text or kwargs.get('in_switch'):
+            # ``break`` would leave the wrong construct
+            raise NotImplementedError('EXIT with a construct name or inside SELECT CASE')
+        return self.format_line('break;')
+
     def visit_Comment(self, o, **kwargs):  # pylint: disable=unused-argument
         """
         Format comments.
@@ -407,7 +417,7 @@ class CCodegen(Stringifier):
         header = self.format_line(control, ' {')
         footer = self.format_line('}')
         self.depth += 1
-        body = self.visit(o.body, **kwargs)
+        body = self.visit(o.body, **{**kwargs, 'in_switch': False})
         self.depth -= 1
         return self.join_lines(header, body, footer)
 
@@ -425,7 +435,7 @@ class CCodegen(Stringifier):
         header = self.format_line('while (', condition, ') {')
         footer = self.format_line('}')
         self.depth += 1
-        body = self.visit(o.body, **kwargs)
+        body = self.visit(o.body, **{**kwargs, 'in_switch': False})
         self.depth -= 1
         return self.join_lines(header, body, footer)
 
@@ -588,7 +598,7 @@ class CCodegen(Stringifier):
             end_cases.append(self.join_lines(self.format_line('break;'), self.format_line('}')))
         footer = self.format_line('}')
         self.depth += 1
-        bodies = self.visit_all(*o.bodies, o.else_body, **kwargs)
+        bodies = self.visit_all(*o.bodies, o.else_body, **{**kwargs, 'in_switch': True})
         self.depth -= 1
         branches = [item for branch in zip(cases, bodies, end_cases) for item in branch]
         return self.join_lines(header, *branches, footer)
